@@ -15,10 +15,11 @@ def parseInstr (j : Json) : Except String Instr := do
     | s => throw s!"bad instr {s}"
   | [t, k] =>
     match (← str t) with
-    | "rmv" => pure (.rmv (← nat k))
+    | "rmv" => pure (.rmv (← nat k) false)
     | s => throw s!"bad instr {s}"
   | [t, k, v] =>
     match (← str t) with
+    | "rmv" => pure (.rmv (← nat k) (← bool v))
     | "gs" =>
       let kk ← nat k
       if v.isNull then pure (.getSet kk .fail) else do
@@ -42,6 +43,7 @@ def evToJson : Ev → Json
   | .cpop k v => Json.arr #[Json.str "cpop", ofNat k, ofNat v]
   | .cpopFail k => Json.arr #[Json.str "cpopFail", ofNat k]
   | .crmv k b => Json.arr #[Json.str "crmv", ofNat k, Json.bool b]
+  | .crmvFail k => Json.arr #[Json.str "crmvFail", ofNat k]
   | .enter k v => Json.arr #[Json.str "enter", ofNat k, ofNat v]
   | .raiseBody => Json.arr #[Json.str "raiseBody"]
 
